@@ -57,14 +57,30 @@ def run_ms(ctx, kind):
 MSUPD_THEOREMS = ["Slock.C06MsUpdate." + t for t in (
     "ms_update_equal_is_counts_only ms_update_ignored_shortening_violated ms_update_ignored_lengthening_violated "
     "parked_hold_small_value_fires parked_hold_large_value_read_as_ms parked_hold_reterm_early_violated "
-    "parked_hold_not_before_park_end_partial").split()]
+    "parked_hold_not_before_park_end_partial "
+    "reterm_ms_equal_counts_ignored reterm_ms_ignored_shortening_violated reterm_ms_ignored_lengthening_violated "
+    "reterm_parked_stale reterm_parked_stale_fires_at_old_park_end reterm_parked_early_violated "
+    "reterm_wheel_deadline reterm_handed_deadline reterm_long_ms_reparked reterm_long_seconds_moved reterm_relock_never_ignored "
+    "reterm_not_ignored_deadline").split()] + [
+    "Slock.Ms.sameTerms_generated", "Slock.Ms.newDeadline_generated", "Slock.Ms.reterm_ignored_iff_generated", "Slock.Ms.staleAfterPark_generated"]
+
+
+def classify_upd(op, impl):
+    t = op.split(" ")
+    if t[0] != "msupd" or len(t) != 8:
+        return None
+    return (t[1], t[2], t[3], t[6], t[7], ":".join(x for x in impl.split(":") if not x.isdigit()))
 
 
 def run_ms_update(ctx, prefixes):
     """C06 / C17: update (flag 0x02) or re-lock of a hold whose expiry entry is in the second wheel / the long table / parked in the
-    millisecond table / handed over from it, new terms in either unit (harness mode msupd; monitors only)."""
-    if "C06:" in prefixes and ctx.lake_build(["Slock.Properties.C06MsUpdate"]):
-        ctx.audit("Slock.Properties.C06MsUpdate", MSUPD_THEOREMS)
+    millisecond table / handed over from it, new terms in either unit (harness mode msupd): monitors + one line per case diffed against
+    M-MSWHEEL's re-term decision (`Slock.Ms.reterm`)."""
+    if "C06:" in prefixes:
+        if ctx.lake_build(["Slock.Properties.C06MsUpdate", "Slock.Proofs.MsReterm"], exe=True):
+            ctx.audit("Slock.Properties.C06MsUpdate", MSUPD_THEOREMS)
+    else:
+        ctx.lake_build(["Slock.Proofs.MsReterm"], exe=True)      # the driver, for the differential
     exe = ctx.build_harness("server", only=MS_FILES)
     if not exe:
         return
@@ -74,7 +90,13 @@ def run_ms_update(ctx, prefixes):
         outdir = ctx.run_harness(exe, "msupd", 56 if thorough else 28, seed=sd, timeout=900)
         if not outdir:
             continue
+        dis = ctx.diff(outdir, "msupd", classify=classify_upd)
         engine_common.read_monitor(ctx, outdir, "msupd", prefixes)
+        if dis:
+            d = dis[0]
+            ctx.broken.append({"kind": "correspondence", "name": "M-MSWHEEL (re-term) vs real update / re-lock paths (msupd)",
+                               "detail": f"{len(dis)} cases disagree; first: op={d[1]} impl={d[2]} model={d[3]}"})
+            ctx.cov.setdefault("disagreements", []).extend({"op": x[1], "impl": x[2], "model": x[3]} for x in dis[:5])
         sp = os.path.join(outdir, "msupd.stats")
         if os.path.exists(sp):
             import json
@@ -82,7 +104,9 @@ def run_ms_update(ctx, prefixes):
             for k, v in json.load(open(sp)).items():
                 dist["msupd:" + k] = dist.get("msupd:" + k, 0) + v
     ctx.assumptions.append("update / re-lock x millisecond unit (mode msupd): real LockDB, real park goroutines in wall time, second wheel on the virtual clock; 4 places of the "
-                           "expiry entry x update / re-lock x 7 new terms; monitors only (bounds of the statement measured from the update), no model line; the deferred "
+                           "expiry entry x update / re-lock x 7 new terms; monitors (bounds of the statement measured from the update) + one line per case diffed against "
+                           "M-MSWHEEL's re-term decision (Slock.Ms.reterm: ignored / second:<deadline> / reparked / stale + what the old park does with it), whose "
+                           "shortcut and deadline are proved equal to the regenerated CheckLockedEqual / UpdateLockedLock kernels (Slock.Ms.*_generated); the deferred "
                            "key-record removal pass (a parked background loop) is run the way Close runs it before the leak check")
 
 
@@ -127,7 +151,7 @@ def replay_ms(prop, path):
             env = {"VERIF_MS_KIND": r.get("kind", "both"), "VERIF_MS_T": str(r["T"]), "VERIF_MS_FRAC": str(r.get("issued_at_ms_of_second", 930))}
         outdir = ctx.run_harness(exe, mode, 1, seed=r.get("seed", 1), extra=env, timeout=300)
         n = 0
-        dis = ctx.diff(outdir, mode) if mode in ("msw", "mswf") else []
+        dis = ctx.diff(outdir, mode) if mode in ("msw", "mswf", "msupd") else []
         for (i, op, impl, model) in dis or []:
             print("MODEL/IMPL DISAGREE:", op, "impl=", impl, "model=", model)
         for l in open(os.path.join(outdir, mode + ".mon")):
